@@ -1178,7 +1178,9 @@ static SpecP make_spec(const vf::Op& o, int idx, int attempt)
 		s.reqbody = gen_body(rlen, (uint64_t)I(A_RSEED), rkind);
 	}
 	if (flags & F_FILEREQ) {
-		s.upload_name = "up_" + std::string(idb) + ".bin";
+		// half of the file names carry multi-byte UTF-8 (2-, 3- and 4-byte scalars): the part header's byte length then differs from its
+		// number of characters (after seeded C10-O)
+		s.upload_name = "up_" + std::string(idb) + (((uint64_t)I(A_RSEED) >> 7) & 1 ? "_a\xc3\xb1o_\xe2\x82\xac\xe6\x97\xa5_\xf0\x9f\x98\x80.bin" : ".bin");
 		s.reqfile = tmpdir() + "/" + s.upload_name;
 	}
 	// response
